@@ -1,4 +1,3 @@
-//verif:race
 // C11 — mirrored storage: writes reach both replicas, reads repair, errors are
 // not masked.
 //
@@ -12,17 +11,20 @@
 // replicas are compared with what the statement of C11 demands (scenario.go).
 //
 // Engines (groups):
-//   enum  - exhaustive small scope: every placement x every operation sequence
-//           up to a bound x every replicator x a failure (every code, early and
-//           late) at EVERY call either replica receives in that sequence.
-//   seq   - random sequential scenarios over model replicas: several objects,
-//           mixed replicators per direction, up to two failures, inconsistent
-//           replicas (spurious NOT_FOUND), all consumption methods.
-//   local - the same with real local stores as replicas; objects parked in
-//           "old" blocks so that the replica's Get returns a buffer with the
-//           refresh running as a background task.
-//   conc  - concurrent clients under the race detector; schedule-independent
-//           clauses only.
+//
+//	enum  - exhaustive small scope: every placement x every operation sequence
+//	        up to a bound x every replicator x a failure (every code, early and
+//	        late) at EVERY call either replica receives in that sequence.
+//	seq   - random sequential scenarios over model replicas: several objects,
+//	        mixed replicators per direction, up to two failures, inconsistent
+//	        replicas (spurious NOT_FOUND), all consumption methods.
+//	local - the same with real local stores as replicas; objects parked in
+//	        "old" blocks so that the replica's Get returns a buffer with the
+//	        refresh running as a background task.
+//	conc  - concurrent clients under the race detector; schedule-independent
+//	        clauses only.
+//
+//verif:race
 package main
 
 import (
@@ -56,21 +58,26 @@ func main() {
 		CaseTimeout: 90 * time.Second,
 		Race:        true,
 		Floors: map[string]int64{
-			"scenario_runs":                     3000,
-			"reads_repaired_first":              300,
-			"reads_served_by_first":             300,
-			"reads_notfound_both_missing":       100,
-			"puts_ok":                           300,
-			"findmissing_copied":                200,
-			"failures_surfaced":                 1000,
-			"failures_named_correctly":          500,
-			"first_consulted_A":                 500,
-			"first_consulted_B":                 500,
-			"local_get_with_task":               60,
-			"reads_repaired_from_old_block":     20,
-			"findmissing_copied_from_old_block": 20,
-			"conc_ops":                          400,
-			"enum_bases":                        100,
+			"scenario_runs":                         5000,
+			"reads_repaired_first":                  450,
+			"reads_served_by_first":                 1500,
+			"reads_notfound_both_missing":           800,
+			"puts_ok":                               1500,
+			"findmissing_copied":                    800,
+			"failures_surfaced":                     4000,
+			"failures_named_correctly":              3500,
+			"first_consulted_A":                     3000,
+			"first_consulted_B":                     3000,
+			"local_get_with_task":                   90,
+			"reads_repaired_from_old_block":         20,
+			"reads_repaired_from_task_buffer":       8,
+			"findmissing_copied_from_old_block":     60,
+			"reads_with_spurious_notfound":          60,
+			"findmissing_inconsistent_replica_seen": 20,
+			"conc_ops":                              900,
+			"conc_quiescent_both_hold":              200,
+			"enum_bases":                            160,
+			"enum_failure_positions":                4000,
 		},
 		Assumptions: []string{
 			"a replica 'holds' an object when its own lookup finds it (model store: map entry; local store: key-location map resolves); objects a local store displaces on its own are not the composite's doing (such cases are dropped and counted)",
@@ -158,7 +165,7 @@ func randomRepl(r *gen.Rng, sc *scenario) {
 // ---- seq -------------------------------------------------------------------
 
 func seqEngine(w *run.Worker) {
-	w.Cases("seq", w.N(4000, 160000), func(c *run.Case) {
+	w.Cases("seq", w.N(4000, 150000), func(c *run.Case) {
 		r := c.Rng
 		sc := &scenario{kinds: [2]string{"model", "model"}}
 		randomRepl(r, sc)
@@ -183,7 +190,7 @@ func seqEngine(w *run.Worker) {
 // ---- local -----------------------------------------------------------------
 
 func localEngine(w *run.Worker) {
-	w.Cases("local", w.N(1600, 40000), func(c *run.Case) {
+	w.Cases("local", w.N(1600, 45000), func(c *run.Case) {
 		r := c.Rng
 		sc := &scenario{hashInit: r.Uint64()}
 		for {
@@ -307,6 +314,9 @@ func enumEngine(w *run.Worker) {
 			return
 		}
 		n := wd.run()
+		if wd.reps[0].storm || wd.reps[1].storm {
+			return // already reported; the failure positions would be meaningless
+		}
 		for rep := 0; rep < 2; rep++ {
 			for idx := 0; idx < n[rep]; idx++ {
 				for _, code := range faultCodes {
@@ -318,6 +328,13 @@ func enumEngine(w *run.Worker) {
 						}
 						w.Count("enum_failure_positions", 1)
 					}
+				}
+				// The replica pretends not to hold the object at this call
+				// (acts on Get calls of a replica that holds it).
+				sc := mk(map[faultKey]fault{{rep, idx}: {kind: faultNotFound}})
+				c.Logf("=== %v", sc.faultString())
+				if wd, ok := build(c, w, sc); ok {
+					wd.run()
 				}
 			}
 		}
@@ -338,7 +355,7 @@ type concRec struct {
 }
 
 func concEngine(w *run.Worker) {
-	w.Cases("conc", w.N(320, 8000), func(c *run.Case) {
+	w.Cases("conc", w.N(320, 9000), func(c *run.Case) {
 		r := c.Rng
 		sc := &scenario{kinds: [2]string{"model", "model"}, hashInit: r.Uint64(), faults: map[faultKey]fault{}}
 		if r.Chance(1, 3) {
@@ -366,6 +383,7 @@ func concEngine(w *run.Worker) {
 			return
 		}
 		allModel := sc.kinds[0] == "model" && sc.kinds[1] == "model"
+		wd.reps[0].opLimit, wd.reps[1].opLimit = 20000, 20000
 		for _, rep := range wd.reps {
 			yr := r.Fork()
 			var mu sync.Mutex
@@ -437,6 +455,10 @@ func concEngine(w *run.Worker) {
 				c.Violation("localStore("+rep.kind+").Put:acknowledged-upload-reads-back-wrong", "%s", strings.Join(rep.corruptPuts, "\n"))
 				return
 			}
+		}
+		if wd.reps[0].storm || wd.reps[1].storm {
+			c.Violation("mirroredBlobAccess(concurrent):unbounded-replica-calls", "more than %d calls to one replica", wd.reps[0].opLimit)
+			return
 		}
 		if wd.reps[0].sizePanics+wd.reps[1].sizePanics > 0 {
 			w.Count("p1_sink_size_panics", 1)
